@@ -38,6 +38,12 @@ KERNELS = [
     dict(name="topsis_similarity", file="skcriteria/agg/similarity.py", fn="topsis",
          params={"matrix": M, "objectives": V, "weights": V, "metric": "Vec n α → Vec n α → α"}, ret="A1 m α", pick=3,
          pids=["C03", "C04", "C05", "C06"]),
+    dict(name="rank_values", file="skcriteria/utils/rank.py", fn="rank_values", params={"arr": V, "reverse": "Bool"}, ret="A1 n Nat", pick=None,
+         pids=["C03", "C04", "C05", "C06"]),
+    dict(name="concordance", file="skcriteria/agg/electre.py", fn="concordance", params={"matrix": M, "objectives": V, "weights": V},
+         ret="A2 m m (Option α)", pick=None, pids=["C08", "C03", "C05"]),
+    dict(name="discordance", file="skcriteria/agg/electre.py", fn="discordance", params={"matrix": M, "objectives": V},
+         ret="A2 m m (Option α)", pick=None, pids=["C08", "C03", "C05"]),
     dict(name="cenit", file="skcriteria/preprocessing/scalers.py", fn="matrix_scale_by_cenit_distance", params={"matrix": M, "objectives": V},
          ret=M, pick=None, pids=["C11", "C12"]),
     dict(name="scale_by_sum_M", file="skcriteria/preprocessing/scalers.py", fn="scale_by_sum", params={"arr": M}, bind={"axis": 0}, ret=M, pick=None,
@@ -60,6 +66,7 @@ KERNELS = [
          sites=[("skcriteria/preprocessing/increment.py", "AddValueToZero", "_transform_weights", "add_value_to_zero", {"axis": None})]),
     dict(name="equal_weights", file="skcriteria/preprocessing/weighters.py", fn="equal_weights", params={"matrix": M, "base_value": S}, ret=V, pick=None,
          pids=["C13"]),
+    dict(name="entropy_weights", file="skcriteria/preprocessing/weighters.py", fn="entropy_weights", params={"matrix": M}, ret=V, pick=None, pids=["C13"]),
     dict(name="std_weights", file="skcriteria/preprocessing/weighters.py", fn="std_weights", params={"matrix": M}, ret=V, pick=None, pids=["C13"]),
 ]
 
@@ -88,6 +95,9 @@ class Tr:
         self.env = set(k["params"])
         self.bind = dict(k.get("bind") or {})
         self.notes = []
+        self.helpers = {}
+        self.depth = 0
+        self.empty = set()
 
     # ---- helpers
     def _dotted(self, node):
@@ -155,10 +165,13 @@ class Tr:
                 return "(⟨-1⟩ : A0 α)"
             raise Untranslated(f"attribute {d}")
         if isinstance(node, ast.BinOp):
-            op = {ast.Mult: "multiply", ast.Add: "add", ast.Sub: "subtract", ast.Div: "divide", ast.MatMult: "inner"}.get(type(node.op))
+            op = {ast.Mult: "multiply", ast.Add: "add", ast.Sub: "subtract", ast.Div: "divide", ast.MatMult: "inner",
+                  ast.BitAnd: "logical_and", ast.BitOr: "logical_or"}.get(type(node.op))
             if not op:
                 raise Untranslated(f"operator {type(node.op).__name__}")
             return f"(Np.{op} {self.e(node.left)} {self.e(node.right)})"
+        if isinstance(node, ast.UnaryOp) and isinstance(node.op, ast.USub) and isinstance(node.operand, ast.Constant) and node.operand.value == 1:
+            return "(⟨-1⟩ : A0 α)"
         if isinstance(node, ast.UnaryOp) and isinstance(node.op, ast.USub):
             return f"(Np.negative {self.e(node.operand)})"
         if isinstance(node, ast.Compare) and len(node.ops) == 1:
@@ -170,6 +183,10 @@ class Tr:
                 return f"(Np.less {b} {a})"
             if t is ast.Eq:
                 return f"(Np.equal {a} {b})"
+            if t is ast.LtE:
+                return f"(Np.less_equal {a} {b})"
+            if t is ast.GtE:
+                return f"(Np.less_equal {b} {a})"
             raise Untranslated(f"comparison {t.__name__}")
         if isinstance(node, ast.Subscript):
             # np.shape(x)[k]
@@ -191,6 +208,21 @@ class Tr:
             if self._dotted(inner.func) in ("distance.cdist", "scipy.spatial.distance.cdist", "cdist"):
                 return self.cdist(inner)
             raise Untranslated("flatten of something that is not cdist")
+        if isinstance(f, ast.Name) and f.id in self.helpers and not kws:
+            return self.inline(self.helpers[f.id], args)
+        if isinstance(f, ast.Attribute) and f.attr == "astype" and len(args) == 1 and not kws and isinstance(args[0], ast.Name) and args[0].id == "int":
+            return f"(Np.astype_int {self.e(f.value)})"
+        if isinstance(f, ast.Attribute) and f.attr == "astype" and len(args) == 1 and not kws and self._dotted(args[0]) in ("np.int64", "numpy.int64", "int") \
+                and isinstance(f.value, ast.Call) and self._dotted(f.value.func) in ("stats.rankdata", "scipy.stats.rankdata", "rankdata"):
+            r = f.value
+            meth = r.args[1] if len(r.args) == 2 and not r.keywords else (
+                r.keywords[0].value if len(r.args) == 1 and len(r.keywords) == 1 and r.keywords[0].arg == "method" else None)
+            if isinstance(meth, ast.Constant) and meth.value == "dense":
+                return f"(Np.rankdata_dense {self.e(r.args[0])})"
+            raise Untranslated("rankdata form")
+        if d in ("np.tile", "numpy.tile") and len(args) == 2 and not kws and isinstance(args[1], ast.Tuple) and len(args[1].elts) == 2 \
+                and isinstance(args[1].elts[1], ast.Constant) and args[1].elts[1].value == 1:
+            return f"(Np.tile {self.e(args[0])} {self.e(args[1].elts[0])})"
         name = None
         if d and d.split(".")[0] in ("np", "numpy") and d.count(".") == 1:
             name = d.split(".")[1]
@@ -203,7 +235,7 @@ class Tr:
             # method call on an array expression: x.sum(axis=…) is np.sum(x, axis=…)
             name = f.attr
             args = [f.value] + args
-        if name is None:
+        if name is None and d not in ("scipy.stats.entropy", "stats.entropy"):
             raise Untranslated(f"call {d or ast.unparse(f)}")
         binary = {"multiply": "multiply", "add": "add", "subtract": "subtract", "divide": "divide", "true_divide": "divide", "equal": "equal",
                   "less": "less", "inner": "inner"}
@@ -248,6 +280,12 @@ class Tr:
                         raise Untranslated("norm order")
             kws = [kw for kw in kws if kw.arg != "ord"]
             return f"(Np.norm {self._axis(kws, allow_keepdims=False)} {self.e(args[0])})"
+        if d in ("scipy.stats.entropy", "stats.entropy") and len(args) == 1:
+            base = [kw for kw in kws if kw.arg == "base"]
+            if len(base) != 1:
+                raise Untranslated("entropy without base=")
+            rest = [kw for kw in kws if kw.arg != "base"]
+            return f"(Np.entropy {self._axis(rest, allow_keepdims=False)} {self.e(args[0])} {self.e(base[0].value)})"
         if name == "where" and len(args) == 3 and not kws:
             return f"(Np.where {self.e(args[0])} {self.e(args[1])} {self.e(args[2])})"
         if name == "full" and len(args) == 2 and all(kw.arg == "dtype" for kw in kws):
@@ -274,22 +312,44 @@ class Tr:
             raise Untranslated("cdist without metric=")
         return f"(Np.cdist1 {metric} {self.e(a[0])} {self.e(a[1].value)})"
 
-    # ---- statements
-    def body(self):
-        lines, result, rank = [], None, None
-        stmts = list(self.fn.body)
+    def inline(self, fn, args):
+        """a call of a module-level helper, written out as nested `let`s (parameters bound to the arguments)"""
+        if self.depth > 3:
+            raise Untranslated("helper nesting")
+        params = [a.arg for a in fn.args.args]
+        if len(params) != len(args) or fn.args.vararg or fn.args.kwonlyargs or fn.args.defaults:
+            raise Untranslated(f"helper {fn.name}: signature")
+        bound = [self.e(a) for a in args]
+        saved = (set(self.env), dict(self.bind), set(self.empty))
+        self.depth += 1
+        try:
+            self.env = set(params)
+            self.bind = {}
+            lines, result = self.block(list(fn.body), pick=None)
+        finally:
+            self.depth -= 1
+            self.env, self.bind, self.empty = saved
+        lets = "".join(f"let {_q(p)} := {b}; " for p, b in zip(params, bound))
+        return "(" + lets + "".join(l.strip() + "; " for l in lines) + result + ")"
+
+    def block(self, stmts, pick):
+        """straight-line statements ending in a return -> (let-lines, result expression)"""
+        lines, result = [], None
         if stmts and isinstance(stmts[0], ast.Expr) and isinstance(stmts[0].value, ast.Constant) and isinstance(stmts[0].value.value, str):
             stmts = stmts[1:]
-        pick = self.k["pick"]
         for s in stmts:
             if result is not None:
                 raise Untranslated("statement after return")
             if isinstance(s, ast.Assign) and len(s.targets) == 1 and isinstance(s.targets[0], ast.Name):
                 nm = s.targets[0].id
+                v = s.value
+                if isinstance(v, ast.Call) and self._dotted(v.func) in ("np.empty", "numpy.empty"):
+                    self.empty.add(nm)  # a buffer: it must be filled row by row before it is used
+                    self.env.discard(nm)
+                    continue
                 try:
-                    rhs = self.e(s.value)
+                    rhs = self.e(v)
                 except Untranslated as ex:
-                    # a local the picked result does not depend on may stay untranslated (e.g. the rank); remember why
                     self.env.discard(nm)
                     self.bind.pop(nm, None)
                     self.notes.append(f"local {nm} not translated ({ex}); any later use makes the kernel untranslated")
@@ -297,6 +357,20 @@ class Tr:
                 self.bind.pop(nm, None)
                 self.env.add(nm)
                 lines.append(f"  let {_q(nm)} := {rhs}")
+            elif isinstance(s, ast.For):
+                lines.append(self.rows_loop(s))
+            elif isinstance(s, ast.If) and not s.orelse and isinstance(s.test, ast.Name) and self.k["params"].get(s.test.id) == "Bool" \
+                    and all(isinstance(b, ast.Assign) and len(b.targets) == 1 and isinstance(b.targets[0], ast.Name) and b.targets[0].id in self.env
+                            for b in s.body):
+                # `if flag: x = f(x)` on a boolean parameter: x := if flag then f(x) else x
+                for b in s.body:
+                    nm = b.targets[0].id
+                    lines.append(f"  let {_q(nm)} := if {_q(s.test.id)} then {self.e(b.value)} else {_q(nm)}")
+            elif isinstance(s, ast.Expr) and isinstance(s.value, ast.Call) and self._dotted(s.value.func) in ("np.fill_diagonal", "numpy.fill_diagonal"):
+                a = s.value.args
+                if len(a) != 2 or not isinstance(a[0], ast.Name) or self._dotted(a[1]) not in ("np.nan", "numpy.nan") or a[0].id not in self.env:
+                    raise Untranslated("fill_diagonal form")
+                lines.append(f"  let {_q(a[0].id)} := (Np.fill_diagonal_nan {_q(a[0].id)})")
             elif isinstance(s, ast.Return):
                 v = s.value
                 if pick is None:
@@ -313,14 +387,51 @@ class Tr:
                                 ok, rev = self._constval(kw.value)
                                 if not ok:
                                     raise Untranslated("reverse= is not a constant")
-                        rank = (ast.unparse(r0.args[0]), bool(rev), ast.unparse(r0.args[0]) == ast.unparse(v.elts[pick]))
+                        self.rank = (ast.unparse(r0.args[0]), bool(rev), ast.unparse(r0.args[0]) == ast.unparse(v.elts[pick]))
             elif isinstance(s, (ast.Import, ast.ImportFrom, ast.Pass)):
                 continue
             else:
                 raise Untranslated(f"statement {type(s).__name__}")
         if result is None:
             raise Untranslated("no return")
-        return lines, result, rank
+        return lines, result
+
+    def rows_loop(self, s):
+        """`for idx, row in enumerate(X): …; out[idx] = expr` with `out = np.empty(...)`: one output row per row of X"""
+        if s.orelse or not (isinstance(s.target, ast.Tuple) and len(s.target.elts) == 2 and all(isinstance(t, ast.Name) for t in s.target.elts)):
+            raise Untranslated("loop form")
+        it = s.iter
+        if not (isinstance(it, ast.Call) and isinstance(it.func, ast.Name) and it.func.id == "enumerate" and len(it.args) == 1 and not it.keywords):
+            raise Untranslated("loop is not over enumerate(...)")
+        idx, row = s.target.elts[0].id, s.target.elts[1].id
+        src = self.e(it.args[0])
+        saved_env = set(self.env)
+        self.env.add(row)
+        inner, out, expr = [], None, None
+        for b in s.body:
+            if expr is not None:
+                raise Untranslated("statement after the row store")
+            if isinstance(b, ast.Assign) and len(b.targets) == 1 and isinstance(b.targets[0], ast.Name):
+                self.env.add(b.targets[0].id)
+                inner.append(f"let {_q(b.targets[0].id)} := {self.e(b.value)}; ")
+            elif isinstance(b, ast.Assign) and len(b.targets) == 1 and isinstance(b.targets[0], ast.Subscript) \
+                    and isinstance(b.targets[0].value, ast.Name) and isinstance(b.targets[0].slice, ast.Name) and b.targets[0].slice.id == idx:
+                out = b.targets[0].value.id
+                expr = self.e(b.value)
+            else:
+                raise Untranslated("loop body form")
+        self.env = saved_env
+        if out is None or out not in self.empty:
+            raise Untranslated("the loop does not fill a buffer made by np.empty")
+        self.empty.discard(out)
+        self.env.add(out)
+        return f"  let {_q(out)} := (Np.map_rows {src} (fun {_q(row)} => ({''.join(inner)}{expr})))"
+
+    # ---- statements
+    def body(self):
+        self.rank = None
+        lines, result = self.block(list(self.fn.body), self.k["pick"])
+        return lines, result, self.rank
 
 
 def _find_fn(tree, name):
@@ -365,6 +476,7 @@ def translate_one(repo: Path, k):
             if not _site_ok(repo, site):
                 raise Untranslated(f"call site {site[1]}.{site[2]} does not call {site[3]} with {site[4]}")
         tr = Tr(k, fn)
+        tr.helpers = {n.name: n for n in tree.body if isinstance(n, ast.FunctionDef) and n.name.startswith("_") and n.name != k["fn"]}
         lines, result, rank = tr.body()
         params = " ".join(f"({_q(p)} : {t})" for p, t in k["params"].items() if p in names)
         src = head + "section\n" + CTX + "\n"
